@@ -276,6 +276,19 @@ Theorem C08_label_of_position :
 Proof. exact compile_label_of_position. Qed.
 Print Assumptions C08_label_of_position.
 
+(* the excluded position: `main` is compiled first and gets no label (known finding N-C08-3: a static
+   call of main compiles - C08_call_resolves gives it Handle(position of main) - and fails at run time
+   with ProcedureNotFound).  Witness on main = [main()]: *)
+Theorem C08_main_has_no_label :
+  spec_resolve (with_std std_module ex_call_main_module) [] [] s_main = SFound ([], s_main) /\
+  fn_position (with_std std_module ex_call_main_module) [] s_main 0 = Some 0%nat /\
+  exists B, compile ex_call_main_module default_options = COk B /\
+            In (IFunctionPointer (handle_from_u64 0) 0)
+               (match decode (p_bytecode B) with Some l => map snd l | None => [] end) /\
+            nm_find (handle_from_u64 0) (p_labels B) = None.
+Proof. exact ex_main_has_no_label. Qed.
+Print Assumptions C08_main_has_no_label.
+
 (* ---- examples: root { main = [a.b.go()]; lib { g }; a { util { h(x, y) };
                         b { imports = [super.super.lib.g, super.util]; go = [g(); util.h(1, 2); &g] } } } ---- *)
 Theorem C08_example_super_spec :
